@@ -83,6 +83,26 @@ pub trait Datamodel {
         ensures
             dm_exec_content(fsm, content_id, old(self).log(), final(self).log(), r),
     ;
+
+    /// R29: `datamodel.execute_for_each(array, item, index, &mut |datamodel| BODY)`.  The data model evaluates the array,
+    /// binds item and index for each element in order and calls the body until it returns false (src/datamodel/*, not
+    /// under contract: the iteration itself is this oracle).  The closure literal is lifted mechanically to the nested
+    /// fn `verif_foreach_body`, which IS verified; this call keeps the other arguments and names the region the body runs.
+    fn verif_execute_for_each(&mut self, fsm: &Fsm, content_id: ExecutableContentId, array_expression: &Data, item_name: &str, index: &str) -> (r: bool)
+        ensures
+            dm_for_each(fsm, content_id, *array_expression, old(self).log(), final(self).log(), r),
+    ;
+}
+
+pub uninterp spec fn dm_for_each(fsm: &Fsm, id: u32, array: Data, l0: Seq<Ev>, l1: Seq<Ev>, r: bool) -> bool;
+
+/// R19: `CONST.to_string()` on a &str
+#[verifier::external_body]
+pub fn verif_to_string(s: &str) -> (r: String)
+    ensures
+        r@ == s@,
+{
+    unimplemented!()
 }
 
 pub uninterp spec fn dm_exec_content(fsm: &Fsm, id: u32, l0: Seq<Ev>, l1: Seq<Ev>, r: bool) -> bool;
